@@ -281,11 +281,14 @@ class ImageWriter:
         return False
 
     def _create_unique_image_name(self, image: LTImage, ext: str) -> Tuple[str, str]:
-        name = image.name + ext
+        # The name comes from the document: keep the file inside outdir
+        # (no path separators, no NUL).
+        image_name = image.name.translate({ord("/"): "_", ord("\\"): "_", 0: "_"})
+        name = image_name + ext
         path = os.path.join(self.outdir, name)
         img_index = 0
         while os.path.exists(path):
-            name = "%s.%d%s" % (image.name, img_index, ext)
+            name = "%s.%d%s" % (image_name, img_index, ext)
             path = os.path.join(self.outdir, name)
             img_index += 1
         return name, path
